@@ -7,9 +7,12 @@ CONSTANTS
   ChunkSizes <- MCOne
   NetMayFail = FALSE
   MayLeaveLitter = FALSE
+  CloseDelimited = FALSE
   WriteInPlace = FALSE
   PersistBeforeStatusCheck = FALSE
   TruncatedIsSuccess = TRUE
+  SkipValidation = TRUE
+  FixedTempName = FALSE
   NoStaleFallback = FALSE
   AbortOnRefreshError = FALSE
 INVARIANTS Atomic
